@@ -19,6 +19,8 @@ pub enum Ty {
     R,
     Q,
     E,
+    /// a record with SIBLING fields of the same droppable type (x / y, l / r, l.v / r.v, p / q, u / w)
+    W,
 }
 
 pub const PARAMS: &str = "n: u32, m: u32, c: bool, t: Tk, s: String";
@@ -26,6 +28,8 @@ pub const PARAMS: &str = "n: u32, m: u32, c: bool, t: Tk, s: String";
 pub const PRELUDE: &str = "\
 record R { a: Tk, b: String, k: u32 }
 record Q { r: R, o: Tk? }
+record V { v: Tk, s: String }
+record W { x: Tk, y: Tk, l: V, r: V, p: Tk?, q: Tk?, u: List[Tk], w: List[Tk] }
 enum E { A(Tk), B(String, Tk), C }
 const KS: String = \"konst\";
 const KT: Tk = mk(77);
@@ -33,6 +37,12 @@ fn pass(x: Tk, k: u32) -> Tk { if k == 0 { return x; } thru(x) }
 fn opt(x: Tk, b: bool) -> Tk? { if b { Some(x) } else { None } }
 fn pick(e: E, d: Tk) -> Tk { match e { A(x) => x, B(q, x) if slen(q) > 1 => x, _ => d } }
 ";
+
+/// (assigned path, read path) pairs inside a `W`: same type, different projection, same root
+pub const SIBLINGS: [(&str, &str); 14] = [
+    ("x", "y"), ("y", "x"), ("l.v", "r.v"), ("r.v", "l.v"), ("l.s", "r.s"), ("l", "r"), ("r", "l"),
+    ("p", "q"), ("q", "p"), ("u", "w"), ("x", "l.v"), ("r.v", "y"), ("x", "x"), ("l.s", "l.s"),
+];
 
 /// host names that exist once per token type: `X` for the sized `Tk`, `Xz` for the zero-sized `Tz`
 const TOKEN_NAMES: [(&str, &str); 9] = [
@@ -209,6 +219,19 @@ impl Gen {
             self.mark("var-use");
             return self.rng.pick(&vars).clone();
         }
+        // reads out of a record with sibling fields (what the sibling assignments left there)
+        let ws = self.vars_of(Ty::W);
+        if !ws.is_empty() && matches!(ty, Ty::Tk | Ty::Str | Ty::OptTk | Ty::ListTk) && self.rng.chance(1, 5) {
+            self.mark("field-read");
+            let w = self.rng.pick(&ws).clone();
+            let f = match ty {
+                Ty::Tk => *self.rng.pick(&["x", "y", "l.v", "r.v"]),
+                Ty::Str => *self.rng.pick(&["l.s", "r.s"]),
+                Ty::OptTk => *self.rng.pick(&["p", "q"]),
+                _ => *self.rng.pick(&["u", "w"]),
+            };
+            return format!("{w}.{f}");
+        }
         let dd = d.saturating_sub(1);
         match ty {
             Ty::U32 => match if leaf { self.rng.below(2) } else { self.rng.below(9) } {
@@ -358,6 +381,22 @@ impl Gen {
             Ty::Q => {
                 self.mark("record-literal");
                 format!("Q {{ r: {}, o: {} }}", self.expr(Ty::R, dd), self.expr(Ty::OptTk, dd))
+            }
+            Ty::W => {
+                self.mark("record-literal");
+                format!(
+                    "W {{ x: {}, y: {}, l: V {{ v: {}, s: {} }}, r: V {{ v: {}, s: {} }}, p: {}, q: {}, u: {}, w: {} }}",
+                    self.expr(Ty::Tk, dd),
+                    self.expr(Ty::Tk, 0),
+                    self.expr(Ty::Tk, 0),
+                    self.expr(Ty::Str, 0),
+                    self.expr(Ty::Tk, 0),
+                    self.expr(Ty::Str, dd),
+                    self.expr(Ty::OptTk, 0),
+                    self.expr(Ty::OptTk, 0),
+                    self.expr(Ty::ListTk, 0),
+                    self.expr(Ty::ListTk, 0)
+                )
             }
             Ty::E => match self.rng.below(3) {
                 0 => {
@@ -592,6 +631,25 @@ impl Gen {
                 format!("let {v}: String = f\"p{{{a}}}q{{{b}}}\";")
             };
         }
+        // assignment whose right-hand side is a plain place read rooted in the SAME variable as the
+        // assigned place (a sibling field of the same droppable type, at either nesting level, a
+        // field of a sibling record, the place itself): the clone of the right-hand side and the
+        // drop of the old left-hand side then stand next to each other in the MIR, rooted in one
+        // variable, with one type — two places that only their projection paths tell apart
+        if self.rng.chance(1, 9) {
+            let ws = self.vars_of(Ty::W);
+            if ws.is_empty() || self.rng.chance(1, 5) {
+                self.mark("let");
+                let e = self.expr(Ty::W, d.min(1));
+                let v = self.name("w");
+                self.env.push((v.clone(), Ty::W));
+                return format!("let {v}: W = {e};");
+            }
+            self.mark("assign-sibling");
+            let w = self.rng.pick(&ws).clone();
+            let (a, b) = *self.rng.pick(&SIBLINGS);
+            return format!("{w}.{a} = {w}.{b};");
+        }
         let k = if d == 0 || self.budget <= 0 { self.rng.below(45) } else { self.rng.below(100) };
         if k < 25 {
             self.mark("let");
@@ -739,5 +797,6 @@ pub fn ty_name(t: Ty) -> &'static str {
         Ty::R => "R",
         Ty::Q => "Q",
         Ty::E => "E",
+        Ty::W => "W",
     }
 }
